@@ -982,6 +982,18 @@ func (x *Exec) execConvert(fr *Frame, st *State, i *ssa.Convert) {
 		fr.vals[i] = TV(v)
 		return
 	}
+	// []byte / []rune -> string and back: the content is not modelled, only the length
+	if sl, ok := from.Underlying().(*types.Slice); ok {
+		if tb, ok := to.Underlying().(*types.Basic); ok && tb.Info()&types.IsString != 0 {
+			if eb, ok := sl.Elem().Underlying().(*types.Basic); ok && eb.Kind() == types.Uint8 {
+				r := w.Fresh("bytes2str", SStr)
+				st.assume(Eq(w.SLen(r), w.slice.Get(v, 2)))
+				x.notes = append(x.notes, "string([]byte) conversion: only the length of the result is modelled")
+				fr.vals[i] = TV(r)
+				return
+			}
+		}
+	}
 	unsupportedf("convert %s -> %s", from, to)
 }
 
